@@ -102,6 +102,28 @@ func checkProgram(src string, nontrivial bool) {
 		if !ok {
 			return
 		}
+		// the whole-program verifier of the model: the hypothesis of Tengo.Props.C02.verified_run_safe
+		big := false
+		for _, f := range fns {
+			if len(f.Instructions) >= 6000 {
+				big = true
+			}
+		}
+		if drv != nil && !big {
+			ans, err := drv.Ask(lib.VMVerifyProgLine(c.BC, tengo.GlobalsSize))
+			if err != nil {
+				fatal(err)
+			}
+			res.ModelLines++
+			res.Count("verifyprog", fmt.Sprint(dedup, src), len(fns) > 1)
+			f := strings.Fields(ans)
+			if len(f) != 3 || f[0] != "ok" || f[2] != "1" {
+				res.Violate(lib.Violation{Signature: "ill-formed-program:" + strings.Join(f[:min(len(f), 3)], "-"), Stream: "verifyprog",
+					Input: replayInput{Source: src}, Observed: clip(ans, 300),
+					Expected: "ok: every referenced function verifies, capture counts are consistent, tail-call sites hold exactly callee and arguments, main never returns and suspends at height 0",
+					Oracle: "Lean Tengo.Model.VM.verifyProgram on the emitted bytecode (hypothesis of the safety theorem)"})
+			}
+		}
 		if dedup {
 			continue // run only the raw variant (C12 covers behaviour after de-duplication)
 		}
